@@ -40,6 +40,7 @@ DELTA = 2000
 DAY = 24 * 3600 * 1_000_000
 SEC = 1_000_000
 NEG_DUR_SIG = "C03:peewee-clip-negative-duration"
+SHARP = {"memory": 0, "sqlite": 1}      # us; peewee's resolution is the statement's own tolerance
 
 
 # ---------------------------------------------------------------------------
@@ -325,6 +326,15 @@ def oracle_get(backend, stored, q, ans, unlimited, dev):
         out_by = max(0 if ws_r is None else ws_r - (s[1] + s[2]), 0 if we_r is None else s[1] - we_r)
         if out_by > 0:
             dev[backend + ":outside-yet-returned"] = max(dev.get(backend + ":outside-yet-returned", 0), out_by)
+    # the back end's own resolution: memory compares exact instants, sqlite float parameters within
+    # 1 us -- there the statement's 2 ms allowance (meant for the millisecond stores) is no excuse
+    sharp = SHARP.get(backend)
+    if sharp is not None:
+        for e in got:
+            s = stored[e[0]]
+            if not meets(s, ws_r, we_r, -sharp):
+                return ("edge-resolution", f"returned {s} lies outside the rounded window [{ws_r},{we_r}] "
+                                           f"(closed intervals, {backend} resolution {sharp} us)")
     if limit == 0:
         if got:
             return ("limit0", "limit 0 returned events")
@@ -333,6 +343,9 @@ def oracle_get(backend, stored, q, ans, unlimited, dev):
             if s[2] <= DAY and s[0] not in ids:
                 if meets(s, ws, we, DELTA):
                     return ("missing", f"stored {s} reaches into [{ws},{we}] by {DELTA} us or more and is not returned")
+                if sharp is not None and meets(s, ws, we, sharp):
+                    return ("edge-resolution", f"stored {s} reaches into the requested window [{ws},{we}] (closed "
+                                               f"intervals, {backend} resolution {sharp} us) and is not returned")
                 if meets(s, ws_r, we_r, 0):
                     in_by = min(10 ** 18 if ws_r is None else s[1] + s[2] - ws_r,
                                 10 ** 18 if we_r is None else we_r - s[1])
@@ -451,9 +464,9 @@ def model_answer(q, m):
 
 def replay_obj(case, backend, qi, impl=None, model=None):
     return {"backend": backend, "events": case["events"], "query": case["queries"][qi], "impl": impl, "model": model,
-            "how": "python -m harness.c03_replay '<json of {backend, events, query}>'  "
-                   "(events [ts_us, dur_us, label] inserted one by one into a fresh bucket, then the query "
-                   "through Bucket.get / Bucket.get_eventcount)"}
+            "how": "PYTHONPATH=$VERIF_REPO:/verif /venv/bin/python -m harness.c03_replay <this file | json of {backend, "
+                   "events, query}>  (events [ts_us, dur_us, label] inserted one by one into a fresh bucket, then the "
+                   "query through Bucket.get / Bucket.get_eventcount; prints the answer and the oracle's verdict)"}
 
 
 def main(argv=None):
@@ -467,7 +480,7 @@ def main(argv=None):
     cases = boundary_cases()
     if quick:
         cases = cases[::2] + cases[-5:]
-    n_random = 260 if quick else 20000
+    n_random = 260 if quick else 5000
     cases += [random_case(ck.rng) for _ in range(n_random)]
     cases += [random_case(ck.rng, long_stream=True) for _ in range(n_random // 6)]
     cases += [round_case(ck.rng, 60) for _ in range(4 if quick else 100)]
